@@ -25,7 +25,7 @@ THEOREMS = {
             "Backtrace.C18_cycle_after_resize", "Backtrace.C18_lastN_is_most_recent", "Backtrace.C18_trigger_iff",
             "Backtrace.C18_stored_iff", "Backtrace.C18_written_iff", "Backtrace.C18_backend_refines",
             "Backtrace.C18_backtrace_statement_not_written", "Backtrace.C18_replay_follows_trigger",
-            "Backtrace.C18_F1_index_not_reset", "Backtrace.C18_F1_index_out_of_range", "Backtrace.C18_F2_capacity_zero_ub",
+            "Backtrace.C18_pinned_ring_partial", "Backtrace.C18_F1_index_not_reset", "Backtrace.C18_F1_index_out_of_range", "Backtrace.C18_F2_capacity_zero_ub",
             "Backtrace.C18_neg_walk_from_zero", "Backtrace.C18_neg_no_clear", "Backtrace.C18_neg_wrap_late",
             "Backtrace.C18_neg_wrap_early", "Backtrace.C18_neg_strict_comparison",
             "Obligations.bt_extraction_complete", "Obligations.bt_resets_index_on_flush",
@@ -65,7 +65,7 @@ def split_cases(text):
     return cases, tail
 
 
-ARITY = {"init": 3, "cap": 2, "st": 2, "pr": 1, "ib": 4, "lg": 4, "ld": 4, "bt": 3, "fb": 2, "poll": 1}
+ARITY = {"init": 3, "cap": 2, "st": 2, "pr": 1, "ib": 4, "lg": 4, "ld": 4, "lgx": 4, "bt": 3, "btx": 3, "fb": 2, "poll": 1}
 
 
 def op_words(ln):
@@ -86,68 +86,52 @@ def ops_only(lines, upto=None):
     return "\n".join(out) + "\n"
 
 
-def classify(lines, upto):
-    """input class of a failure seen after `lines[:upto]` (for known_findings.json):
-       F1 = a flush of a wrapped ring happened earlier in the same capacity epoch of some ring;
-       F2 = the last store went to a ring of capacity 0."""
-    kind = lines[0].split()[2] if len(lines[0].split()) > 2 else "ring"
-    rings = {}   # name -> [inited, cap, stored_since, wrapped_flush_seen]
-    flush_level = {}
-    last_store_cap0 = False
-    pending = []
+# parameters of "the repaired code plus exactly this listed defect" (order as in params_args)
+DEFECT_FLAG = {"F1": 0, "F2": 1}   # F1: resetsIndexOnFlush = 0 ; F2: guardsZeroCapacity = 0
 
-    def ring(n):
-        return rings.setdefault(n, [kind == "ring", 0, 0, False])
 
-    def flush(r):
-        if r[1] >= 1 and r[2] > r[1]:
-            r[3] = True
-        r[2] = 0
-
-    def backend(ws):
-        nonlocal last_store_cap0
-        if ws[0] in ("cap", "ib"):
-            r = ring(ws[1] if ws[0] == "ib" else "_")
-            c = int(ws[2] if ws[0] == "ib" else ws[1])
-            if not r[0] or c != r[1]:
-                r[1], r[2], r[3] = c, 0, False
-            r[0] = True
-        elif ws[0] in ("st", "bt"):
-            r = ring(ws[1] if ws[0] == "bt" else "_")
-            if r[0]:
-                r[2] += 1
-                last_store_cap0 = r[1] == 0
-        elif ws[0] in ("pr", "fb"):
-            r = ring(ws[1] if ws[0] == "fb" else "_")
-            if r[0]:
-                flush(r)
-        elif ws[0] in ("lg", "ld"):
-            r = ring(ws[1])
-            if r[0] and ws[2] in SEV and SEV.index(ws[2]) >= flush_level.get(ws[1], 9):
-                flush(r)
-
-    for ln in lines[1:upto]:
+def explained_by_known(known_ids, case, upto, aborted, levels):
+    """Input class of a listed finding = the cases on which the real code behaves exactly like the model of the
+    repaired code with only the listed defect(s) switched on, and that model deviates from the specification
+    there (MODEL-SPEC-DIFF / MODEL-UB). Anything else that goes wrong shows up as a MISMATCH against that model
+    and is not excused. Returns the finding id, or None."""
+    ids = [k for k in known_ids if k in DEFECT_FLAG]
+    if not ids:
+        return None
+    par = ["1", "1", "1", "1", "1", "ge"]
+    for k in ids:
+        par[DEFECT_FLAG[k]] = "0"
+    w0 = op_words(case[0])
+    if not w0:
+        return None
+    head = " ".join(w0 + par + ([levels] if w0[2] == "e2e" else []))
+    body = []
+    for ln in case[1:upto]:
         ws = op_words(ln)
         if not ws:
             continue
-        if kind == "ring":
-            backend(ws)
-        elif ws[0] == "poll":
-            for p in pending:
-                backend(p)
-            pending = []
-        else:
-            if ws[0] == "ib":
-                flush_level[ws[1]] = SEV.index(ws[3]) if ws[3] in SEV else 9
-            pending.append(ws)
-    for p in pending:   # an abort inside poll(): the queued events were being processed
-        backend(p)
-    cls = set()
-    if any(r[3] for r in rings.values()):
-        cls.add("F1")
-    if last_store_cap0:
-        cls.add("F2")
-    return cls
+        body.append(ln if " => " in ln else " ".join(ws) + " => ?")
+    if aborted and body and not body[-1].endswith("=> ?"):
+        return None
+    rc, dout = vlib.driver(["backtrace", "trace"], stdin_data=("\n".join([head] + body) + "\n").encode())
+    last = len(body) + 1
+    deviates, ub_at_store = False, False
+    for ln in dout.split("\n"):
+        if ln.startswith(("MISMATCH", "BAD-", "NO-INIT")):
+            m = re.search(r"line=(\d+)", ln)
+            if aborted and m and int(m.group(1)) == last:
+                continue   # the call that died has no observation
+            return None
+        if ln.startswith("MODEL-SPEC-DIFF"):
+            deviates = True
+        if ln.startswith("MODEL-UB"):
+            deviates = True
+            ub_at_store = bool(re.search(r": (st|bt|btx) ", ln + " ")) or "store evaluates" in ln
+    if not deviates:
+        return None
+    if len(ids) == 1:
+        return ids[0]
+    return "F2" if ub_at_store else "F1"
 
 
 def sanitizer_summary(out):
@@ -178,10 +162,10 @@ def run(prop, tier):
                  stats=[], done=[], known_hits={})
 
     def handle_failure(label, what, case, upto, tag):
-        cls = classify(case, upto)
-        hit = sorted(c for c in cls if c in known)
-        if hit:
-            state["known_hits"].setdefault(hit[0], (label, what, case, upto))
+        fid = explained_by_known(sorted(known), case, len(case), tag == "aborts", pargs[6]) if known else None
+        if fid:
+            state["known_hits"].setdefault(fid, (label, what, case, upto))
+            state["known_count"] = state.get("known_count", 0) + 1
             return
         state[tag].append((label, what, case, upto))
 
@@ -190,8 +174,11 @@ def run(prop, tier):
         for t in tail:
             state["stats"].append(label + ": " + t)
         aborted = rc not in (0, 3)
-        rc2, dout = vlib.driver(["backtrace", "trace"], stdin_data=text.encode())
+        # the driver gets the completed calls only (an aborted run ends with the call that died + the report)
+        dtext = "\n".join(ln for ln in text.split("\n") if ln.startswith("init ") or (" => " in ln and op_words(ln))) + "\n"
+        rc2, dout = vlib.driver(["backtrace", "trace"], stdin_data=dtext.encode())
         by_id = {c[0].split()[1]: c for c in cases}
+        model_dev = {}
         for ln in dout.split("\n"):
             if ln.startswith("TRACE "):
                 state["traces"] += 1
@@ -204,14 +191,26 @@ def run(prop, tier):
                     state["nontrivial"].add(hashlib.sha1(ops_only(c[1:] if c else [ln]).encode()).hexdigest())
             elif ln.startswith("DONE"):
                 state["done"].append(label + ": " + ln)
-            elif ln.startswith(("MISMATCH", "MODEL-", "BAD-", "NO-INIT")):
+            elif ln.startswith(("MISMATCH", "BAD-", "NO-INIT")):
                 m = re.search(r"trace=(\S+)", ln)
                 state["mismatches"].append((label, ln, by_id.get(m.group(1)) if m else None))
+            elif ln.startswith("MODEL-"):
+                # the model (with the extracted parameters) leaves the specification: the real code, which it
+                # mirrors, must have failed the oracle / aborted on the same case — checked below
+                m = re.search(r"trace=(\S+)", ln)
+                model_dev.setdefault(m.group(1) if m else "?", ln)
+        failed_ids = set()
         for c in cases:
             for i, ln in enumerate(c):
                 if ln.startswith("ORACLE"):
                     handle_failure(label, ln, c, i, "oracle")
+                    failed_ids.add(c[0].split()[1])
                     break
+        if rc not in (0, 3) and cases:
+            failed_ids.add(cases[-1][0].split()[1])
+        for tid, ln in model_dev.items():
+            if tid not in failed_ids:
+                state["mismatches"].append((label, ln + "  [model leaves the specification but the oracle on the real code did not fire]", by_id.get(tid)))
         if aborted and cases:
             c = cases[-1]
             what = "harness aborted (rc=%d) while driving the real code: %s" % (rc, sanitizer_summary(text))
@@ -233,7 +232,7 @@ def run(prop, tier):
     if tier == "quick":
         plans = [(ck.seed, 600, 400, 11)]
     else:
-        plans = [(ck.seed, 2500, 1500, 13), (ck.seed + 1000, 2500, 1500, 0), (ck.seed + 2000, 2500, 1500, 0)]
+        plans = [(ck.seed, 4000, 2500, 15), (ck.seed + 1000, 4000, 2500, 0), (ck.seed + 2000, 4000, 2500, 0)]
     for sd, nring, ne2e, exh in plans:
         rc, out = vlib.sh([hbin, "gen", str(sd), str(nring), str(ne2e), str(exh)] + pargs, env=vlib.ASAN_ENV, timeout=3000)
         process(out, rc, "gen seed=%d" % sd)
@@ -256,7 +255,15 @@ def run(prop, tier):
             label, ln, ops_only(case) if case else "")
         ck.violation("correspondence", content,
                      "model and implementation disagree (%d lines), no property oracle fired: %s" % (len(state["mismatches"]), ln[:300]), no_input=True)
-    if ps["broken"] and not fails and not state["known_hits"]:
+    attributable = False
+    if ps["broken"] and state["known_hits"] and not ex.get("failures"):
+        # is every deviation of the extracted structure one of the listed defects?
+        want = ["1", "1", "1", "1", "1", "ge"]
+        attributable = all(pargs[i] == want[i] or (pargs[i] == "0" and i in [DEFECT_FLAG[k] for k in known if k in DEFECT_FLAG])
+                           for i in range(6))
+        if attributable:
+            ck.notes.append("proof obligations broken only by the listed finding(s) %s (extracted structure otherwise as required)" % sorted(state["known_hits"]))
+    if ps["broken"] and not fails and not attributable:
         # model-side search with the extracted parameters, replayed on the real code
         found = False
         rc, sout = vlib.driver(["backtrace", "search"] + pargs + ["12"], timeout=900)
@@ -309,6 +316,7 @@ def run(prop, tier):
         "mismatching_lines": len(state["mismatches"]),
         "oracle_hits": len(state["oracle"]),
         "aborts": len(state["aborts"]),
+        "failing_cases_in_the_class_of_a_listed_finding": state.get("known_count", 0),
     })
     return ck.finish()
 
